@@ -196,6 +196,10 @@ func Run(o Options) int {
 						// a model contract of an interface method: verified by refinement where an implementing type is
 						// coupled with the interface ("represents"), assumed otherwise
 						refined := false
+						if fs := w.Contracts[k]; fs != nil && fs.Opts["norefine"] != "" {
+							assumedModels[k] = true
+							continue
+						}
 						for _, ik := range w.ImplKeys(k) {
 							if du := w.UnitByKey(ik); du != nil {
 								refined = true
